@@ -45,6 +45,15 @@ Models ==
                      inputs |-> <<InD("x", <<DFix(2), DSym, DFix(2)>>)>>, outputs |-> <<"Y", "Yh", "Yc">>,
                      inits |-> [w |-> RW(4, 2, 2, 2), r |-> RW(4, 2, 2, 0), bb |-> RB(4, 2, 1)]],
               axis |-> 1, sample |-> <<2, 2>>, oaxes |-> <<2, 1, 1>>],
+    \* peephole weights are per hidden unit and shared by all samples of the batch
+    lstm_peephole |-> [g |-> [nodes |-> <<Nd("LSTM", <<AI("hidden_size", 2), ReluActs(3)>>, <<"x", "w", "r", "bb", "", "", "", "p">>, <<"Y", "Yh", "Yc">>)>>,
+                     inputs |-> <<InD("x", <<DFix(2), DSym, DFix(2)>>)>>, outputs |-> <<"Y", "Yh", "Yc">>,
+                     inits |-> [w |-> RW(4, 2, 2, 2), r |-> RW(4, 2, 2, 0), bb |-> RB(4, 2, 1), p |-> T("f32", <<1, 6>>, <<1, -1, 2, 0, -2, 1>>)]],
+              axis |-> 1, sample |-> <<2, 2>>, oaxes |-> <<2, 1, 1>>],
+    gru_lbr |-> [g |-> [nodes |-> <<Nd("GRU", <<AI("hidden_size", 2), AI("linear_before_reset", 1), ReluActs(2)>>, <<"x", "w", "r", "bb">>, <<"Y", "Yh">>)>>,
+                    inputs |-> <<InD("x", <<DFix(2), DSym, DFix(2)>>)>>, outputs |-> <<"Y", "Yh">>,
+                    inits |-> [w |-> RW(3, 2, 2, 1), r |-> RW(3, 2, 2, 2), bb |-> RB(3, 2, 0)]],
+             axis |-> 1, sample |-> <<2, 2>>, oaxes |-> <<2, 1>>],
     rnn |-> [g |-> [nodes |-> <<Nd("RNN", <<AI("hidden_size", 2), ReluActs(1)>>, <<"x", "w", "r">>, <<"Y", "Yh">>)>>,
                     inputs |-> <<InD("x", <<DFix(2), DSym, DFix(2)>>)>>, outputs |-> <<"Y", "Yh">>,
                     inits |-> [w |-> RW(1, 2, 2, 1), r |-> RW(1, 2, 2, 2)]],
